@@ -21,6 +21,13 @@ FUNCTIONS = [S_ + 'brownian.generate_brownian', S_ + 'brownian.generate_geometri
 V = {n: tm.var(n) for n in ('x0', 'mu', 'sigma', 'dt', 'kappa', 'theta', 'rho', 'v0', 'lam', 'jm', 'js')}
 
 
+def _scalar0(term):
+    """an initial state passed as a bare 0-dim tensor instead of a tuple (cast_state accepts both)"""
+    import torch
+    from pfv.torchlib.tensor import Tensor
+    return Tensor.fresh(lambda idx: term, (), torch.float64)
+
+
 def _assume_u(c, name, shape):
     """assumed contract of rand_like: 0 <= U <= 1 - eps (float uniform generators never return 1)"""
     i_, j_ = c.fresh('ui', 'I'), c.fresh('uj', 'I')
@@ -159,7 +166,7 @@ def _replay_crn(name):
     return {'real': r, 'confirmed': not ok}
 
 
-def brownian_ob(geometric, aspect=None):
+def brownian_ob(geometric, aspect=None, scalar_init=False):
     name = 'generate_geometric_brownian' if geometric else 'generate_brownian'
 
     def check():
@@ -170,7 +177,7 @@ def brownian_ob(geometric, aspect=None):
 
         def run(c):
             c.lazy_defined = True
-            return getattr(ps, name)(SInt(N), SInt(T), init_state=(SReal(V['x0']),), sigma=SReal(V['sigma']), mu=SReal(V['mu']), dt=SReal(V['dt']), dtype=torch.float64)
+            return getattr(ps, name)(SInt(N), SInt(T), init_state=(_scalar0(V['x0']) if scalar_init else (SReal(V['x0']),)), sigma=SReal(V['sigma']), mu=SReal(V['mu']), dt=SReal(V['dt']), dtype=torch.float64)
         paths = explore(run, hyps, max_paths=8)
         rows = []
         sample = {'claim': 'exact path-wise solution given the engine normals; shape; first column; positivity (geometric)', 'generator': name}
@@ -223,7 +230,7 @@ def brownian_ob(geometric, aspect=None):
                     st_ = 'refuted' if _replay_crn(name).get('confirmed') else 'unknown'
                 rows.append((LAW + 'the same caller-supplied normals used a second time give the exact solution again', st_, tm.show(p.result.at((n, j)))[:300] if r.status != 'unsat' else ''))
         return _verdict(rows, t0, sample, aspect)
-    return Obligation('GEN/%s/post' % name, 'post', S_ + 'brownian.' + name, check, _props(aspect),
+    return Obligation('GEN/%s/post%s' % (name, '[scalar init_state]' if scalar_init else ''), 'post', S_ + 'brownian.' + name, check, _props(aspect),
                       clause='%s: (n_paths, n_steps) series, first column = initial state, %svalue[n,t] = %s for all n_paths, n_steps' % (
                           name, 'positive, ' if geometric else '', 'S0 exp((mu - sigma^2/2) dt t + sigma sqrt(dt) sum_{k<=t} Z[n,k])' if geometric else 'x0 + mu dt t + sigma sqrt(dt) sum_{k<=t} Z[n,k]'))
 
@@ -341,7 +348,7 @@ def cir_ob():
                       clause='generate_cir: variance stays >= 0 on both branches of the quadratic-exponential scheme, first column = initial state, shape (n_paths, n_steps), for all n_steps and admissible parameters')
 
 
-def vasicek_ob(aspect=None):
+def vasicek_ob(aspect=None, scalar_init=False):
     def check():
         t0 = time.time()
         import torch
@@ -371,7 +378,8 @@ def vasicek_ob(aspect=None):
 
         def run(c):
             c.lazy_defined = True
-            return cut(SInt(N), SInt(T), init_state=(SReal(V['x0']),), kappa=SReal(V['kappa']), theta=SReal(V['theta']), sigma=SReal(V['sigma']), dt=SReal(V['dt']), dtype=torch.float64)
+            # the initial state as a 1-tuple, or as a bare scalar (cast_state accepts both); any value, zero included
+            return cut(SInt(N), SInt(T), init_state=(_scalar0(V['x0']) if scalar_init else (SReal(V['x0']),)), kappa=SReal(V['kappa']), theta=SReal(V['theta']), sigma=SReal(V['sigma']), dt=SReal(V['dt']), dtype=torch.float64)
         try:
             paths = explore(run, hyps, max_paths=16)
         except Unsupported as e:
@@ -389,7 +397,7 @@ def vasicek_ob(aspect=None):
         import inspect
         rows.append(('no self-recursion (terminates for every initial state)', 'proved' if 'generate_vasicek(' not in inspect.getsource(vmod.generate_vasicek).split('"""')[-1] else 'refuted', ''))
         return _verdict(rows, t0, sample, aspect)
-    return Obligation('GEN/generate_vasicek/loop', 'inv+lemma', S_ + 'vasicek.generate_vasicek', check, _props(aspect),
+    return Obligation('GEN/generate_vasicek/loop' + ('[scalar init_state]' if scalar_init else ''), 'inv+lemma', S_ + 'vasicek.generate_vasicek', check, _props(aspect),
                       clause='generate_vasicek: from any initial state each step is x\' = theta + (x-theta)e^{-kappa dt} + sigma sqrt((1-e^{-2 kappa dt})/(2 kappa)) Z (closed-form mean reversion around theta); first column; shape; no recursion')
 
 
@@ -602,8 +610,59 @@ def bounded_ob(tier):
                       clause='BOUNDED stand-in: generate_kou_jump (mask/prod block) and generate_rough_bergomi (conv1d block) are outside the executor; shape, first column, finiteness, positivity, dtype on a fixed battery of real runs')
 
 
+ANTI_REPLAY = '''
+from pfhedge.stochastic.random import randn_antithetic
+bad = []
+for n in (1, 2, 3, 4, 5, 8, 9):
+    for shuffle in (False, True):
+        z = randn_antithetic(n, 3, shuffle=shuffle)
+        if tuple(z.shape) != (n, 3): bad.append((n, shuffle, tuple(z.shape)))
+result = {"got": [str(b) for b in bad], "ref": []}
+'''
+
+
+def antithetic_ob():
+    """randn_antithetic(n, ...) returns n rows for every n (odd ones included): the engine contract the generators rely on"""
+    def check():
+        t0 = time.time()
+        import torch
+        from pfhedge.stochastic.random import randn_antithetic
+        rows = []
+        for shuffle in (False,):      # shuffle=True permutes rows through randperm (outside the shim); the row count is decided before it
+            def run(c):
+                return randn_antithetic(SInt(N), SInt(T), shuffle=shuffle, dtype=torch.float64)
+            try:
+                paths = explore(run, DIMS, max_paths=16)
+            except Unsupported as e:
+                return Verdict('unknown', 'engine', time.time() - t0, 'out of reach: %s' % e)
+            from pfv.torchlib.tensor import ti
+            for p in paths:
+                if p.outcome() != 'returns':
+                    return Verdict('unknown', 'engine', time.time() - t0, str((p.outcome(), str(p.exception)[:300], p.traceback[-500:])))
+                res = p.result
+                ok = len(res._shape) == 2
+                if ok:
+                    r = smt.prove(p.facts(DIMS), tm.and_(tm.eq(ti(res._shape[0]), N), tm.eq(ti(res._shape[1]), T)), timeout_ms=20000)
+                    rows.append(('shape (n, ...) for every n [shuffle=%s]' % shuffle, {'unsat': 'proved', 'sat': 'refuted'}.get(r.status, 'unknown'), str(res._shape)))
+                else:
+                    rows.append(('rank', 'refuted', str(res._shape)))
+        bad = [r_ for r_ in rows if r_[1] == 'refuted']
+        unk = [r_ for r_ in rows if r_[1] == 'unknown']
+        sample = {'claim': 'randn_antithetic returns the requested number of rows', 'vcs': [{'vc': r_[0], 'status': r_[1]} for r_ in rows]}
+        if bad:
+            rr = real_exec(ANTI_REPLAY, {}, timeout=300)
+            return Verdict('refuted', 'z3 (LIA)', time.time() - t0, '; '.join('%s %s' % (r_[0], r_[2]) for r_ in bad)[:400], witness={'failed': [r_[0] for r_ in bad]}, sample=sample,
+                           replay={'real': rr, 'confirmed': not (rr.get('ok') and rr['result']['got'] == [])})
+        if unk:
+            return Verdict('unknown', 'z3', time.time() - t0, '; '.join('%s %s' % (r_[0], r_[2]) for r_ in unk)[:400], sample=sample)
+        return Verdict('proved', 'z3 (LIA)', time.time() - t0, '%d VCs' % len(rows), sample=sample)
+    return Obligation('GEN/randn_antithetic/post', 'post', S_ + 'random.randn_antithetic', check, ['C11'],
+                      clause='randn_antithetic(n_paths, ...) has n_paths rows for every n_paths >= 1 (odd counts included)')
+
+
 def c11_obligations(seed, tier='quick'):
-    return [brownian_ob(False, 'wf'), brownian_ob(True, 'wf'), merton_ob('wf'), cir_ob(), vasicek_ob('wf'), heston_ob('wf'), local_vol_ob('wf'), kou_ob('wf'), dtype_ob(), bounded_ob(tier), rough_bergomi_bounded_obs()[1]]
+    return [brownian_ob(False, 'wf'), brownian_ob(True, 'wf'), merton_ob('wf'), cir_ob(), vasicek_ob('wf'), heston_ob('wf'), local_vol_ob('wf'), kou_ob('wf'), dtype_ob(), bounded_ob(tier), rough_bergomi_bounded_obs()[1],
+            vasicek_ob('wf', scalar_init=True), brownian_ob(False, 'wf', scalar_init=True), antithetic_ob()]
 
 
 # ------------------------------------------------------------------ C10: laws (moment calculus under the i.i.d. source contracts)
@@ -1049,4 +1108,5 @@ def rough_bergomi_bounded_obs():
 
 def c10_obligations(seed, tier='quick'):
     rb = rough_bergomi_bounded_obs()
-    return [brownian_ob(False, 'law'), brownian_ob(True, 'law'), merton_ob('law'), vasicek_ob('law'), heston_ob('law'), local_vol_ob('law'), gbm_moments_ob(), merton_moments_ob(), kou_ob('law'), cir_moments_ob(), rb[0]]
+    return [brownian_ob(False, 'law'), brownian_ob(True, 'law'), merton_ob('law'), vasicek_ob('law'), heston_ob('law'), local_vol_ob('law'), gbm_moments_ob(), merton_moments_ob(), kou_ob('law'), cir_moments_ob(), rb[0],
+            vasicek_ob('law', scalar_init=True)]
